@@ -73,6 +73,10 @@ func main() {
 	replay := flag.String("replay", "", "decision list (comma separated) to run a single path with tracing")
 	concrete := flag.String("concrete", "", "trace JSON: run the entry with these concrete inputs (engine concrete mode, R2 replay)")
 	flag.Parse()
+	if os.Getenv("VERIF_PROF") != "" {
+		profSteps = map[string]int64{}
+	}
+
 
 	res := &Result{Pkg: *pkgPat, Tier: *tier}
 	t0 := time.Now()
@@ -185,6 +189,7 @@ func main() {
 		writeOut()
 	}
 	writeOut()
+	dumpProf()
 	os.Exit(exit)
 }
 
@@ -505,4 +510,22 @@ func (in *Interp) samplePath() (string, *SampleTrace) {
 	}
 	sb.WriteString(" ]")
 	return sb.String(), tr
+}
+
+func dumpProf() {
+	if profSteps == nil {
+		return
+	}
+	type kv struct {
+		k string
+		v int64
+	}
+	var l []kv
+	for k, v := range profSteps {
+		l = append(l, kv{k, v})
+	}
+	sort.Slice(l, func(i, j int) bool { return l[i].v > l[j].v })
+	for i := 0; i < len(l) && i < 25; i++ {
+		fmt.Fprintf(os.Stderr, "PROF %12d %s\n", l[i].v, l[i].k)
+	}
 }
